@@ -242,7 +242,7 @@ def _run(prop, tier, seed, n_hist, budget, batch, workers, evidence_path, t0, ev
             "reference_evaluations": c.get("ref_evals", 0), "reference_memo_hits": c.get("ref_memo_hits", 0),
             "distinct_schedules": len(schedules),
             "faults_fired": fault_counts,
-            "fault_detail": {k: v for k, v in sorted(c.items()) if k.startswith(("F2_", "F3_", "reuse_after_", "status_", "op_", "unjudged_"))},
+            "fault_detail": {k: v for k, v in sorted(c.items()) if k.startswith(("F2_", "F3_", "reuse_after_", "status_", "op_", "unjudged_", "probe_", "minimised_", "dry_runs"))},
             "precondition_failed": c.get("precondition_failed", 0),
             "runs_per_hour": round(len(runs) / max(wall, 1e-6) * 3600),
             "seeds": {"master": seed, "first_run_seeds": sorted({r["run_seed"] for r in runs})[:5], "count": len(runs)},
